@@ -1,5 +1,6 @@
 import LinfaSpec.Proofs.NN
 import LinfaSpec.Proofs.NNMetrics
+import LinfaSpec.Proofs.NNBridge
 import LinfaSpec.Drv.C07
 import Mathlib.Analysis.SpecialFunctions.Log.Basic
 import Mathlib.Algebra.Order.Field.Rat
@@ -943,5 +944,202 @@ example : (meanDim 2 [v2 1 2, v2 3 4]).1 = vecMean [[(1 : ℚ), 2], [3, 4]] :=
   meanDim_val 2 _ (by simp)
 
 end driver
+
+open LinfaSpec.Drv.C07
+
+/-! ### termination of the build, the k-nearest clause in the distance -/
+section extra
+variable {P α : Type} [Field α] [LinearOrder α] [IsStrictOrderedRing α]
+
+/-- what `partition` guarantees besides the permutation: both halves are non-empty
+(`debug_assert!(!aps.is_empty() && !bps.is_empty())`), which is why the real recursion terminates -/
+def SplitNonempty (split : List (Pt P) → Option (List (Pt P) × P × List (Pt P))) : Prop :=
+  ∀ pts a c b, split pts = some (a, c, b) → a ≠ [] ∧ b ≠ []
+
+/-- **the fuel of `build` is not a modelling artefact**: with a split whose halves are non-empty (so
+each half is strictly smaller) any fuel ≥ the number of points gives the same tree — the fuel never
+is the reason for a leaf, the model's recursion is the recursion of `BallTreeInner::new`. -/
+theorem build_fuel_irrelevant {m : Metric P α} {mean : List P → P}
+    {split : List (Pt P) → Option (List (Pt P) × P × List (Pt P))} (hs : SplitPerm split)
+    (hn : SplitNonempty split) (leafSize : Nat) (hl : 0 < leafSize) :
+    ∀ (f1 f2 : Nat) (pts : List (Pt P)), (pts.map (·.2)).Nodup → pts.length ≤ f1 → pts.length ≤ f2 →
+      build m mean split leafSize f1 pts = build m mean split leafSize f2 pts := by
+  intro f1
+  induction f1 with
+  | zero =>
+    intro f2 pts _ h1 _
+    have h0 : pts.length ≤ leafSize := by omega
+    cases f2 with
+    | zero => rfl
+    | succ k => simp [build, h0]
+  | succ n ih =>
+    intro f2 pts hnd h1 h2
+    cases f2 with
+    | zero =>
+      have h0 : pts.length ≤ leafSize := by omega
+      simp [build, h0]
+    | succ k =>
+      by_cases h0 : pts.length ≤ leafSize
+      · simp [build, h0]
+      · cases hsp : split pts with
+        | none => simp [build, h0, hsp]
+        | some t =>
+          obtain ⟨a, c, b⟩ := t
+          have hp := hs _ _ _ _ hnd hsp
+          obtain ⟨hna, hnb⟩ := hn _ _ _ _ hsp
+          obtain ⟨hda, hdb⟩ := nodup_halves hp hnd
+          have hlen := hp.length_eq
+          simp only [List.length_append] at hlen
+          have ha : 0 < a.length := List.length_pos_iff.mpr hna
+          have hb : 0 < b.length := List.length_pos_iff.mpr hnb
+          simp only [build, h0, hsp, if_false]
+          rw [ih k a hda (by omega) (by omega), ih k b hdb (by omega) (by omega)]
+
+theorem scriptSplit_nonempty (script : Script) : SplitNonempty (scriptSplit (P := P) script) := by
+  intro pts a c b h
+  obtain ⟨_, _, ha, hb, _⟩ := scriptSplit_shape script pts a b c h
+  exact ⟨ha, hb⟩
+
+/-- the statement's k-nearest clause read in the DISTANCE (not the reduced distance): ascending, and
+every stored point left out is at least as far as every returned one -/
+theorem kNearest_dist_form {m : Metric P α} (hL : Lawful m) (q : P) (pts out : List (Pt P)) (k : Nat)
+    (h : KNearest m q pts out k) :
+    ∃ rest, (out ++ rest).Perm pts ∧ out.length = min k pts.length ∧
+      out.Pairwise (fun a b => m.dist q a.1 ≤ m.dist q b.1) ∧
+      ∀ y ∈ out, ∀ x ∈ rest, m.dist q y.1 ≤ m.dist q x.1 := by
+  have hasc := kNearest_dist_ascending hL q pts out k h
+  obtain ⟨rest, hp, hl, _, hm⟩ := h
+  refine ⟨rest, hp, hl, hasc, ?_⟩
+  intro y hy x hx
+  have := hm y hy x hx
+  rw [hL.rdist_eq, hL.rdist_eq] at this
+  exact hL.le_of_toR_le (hL.dist_nonneg _ _) this
+
+
+-- non-vacuity: the replayed split has non-empty halves, so fuel 3 (= n) and fuel 10 build the same tree
+example : build mQ meanQ (scriptSplit [(1, [0], [1, 2])]) 1 3 (enumerate [(5 : ℚ), 7, 9]) =
+    build mQ meanQ (scriptSplit [(1, [0], [1, 2])]) 1 10 (enumerate [(5 : ℚ), 7, 9]) :=
+  build_fuel_irrelevant (scriptSplit_splitPerm _) (scriptSplit_nonempty _) 1 (by decide) 3 10 _
+    (enumerate_nodup _) (by simp [enumerate]) (by simp [enumerate])
+example : ∃ rest, (linearKnn mQ 2 3 (enumerate [0, 3, 1, 3, 7]) ++ rest).Perm (enumerate [0, 3, 1, 3, 7]) ∧
+    (linearKnn mQ 2 3 (enumerate [0, 3, 1, 3, 7])).length = min 3 (enumerate [(0 : ℚ), 3, 1, 3, 7]).length ∧
+    (linearKnn mQ 2 3 (enumerate [0, 3, 1, 3, 7])).Pairwise (fun a b => mQ.dist 2 a.1 ≤ mQ.dist 2 b.1) ∧
+    ∀ y ∈ linearKnn mQ 2 3 (enumerate [0, 3, 1, 3, 7]), ∀ x ∈ rest, mQ.dist 2 y.1 ≤ mQ.dist 2 x.1 :=
+  kNearest_dist_form mQ_lawful 2 _ _ 3 (linear_knn_correct mQ 2 3 _)
+
+end extra
+
+/-! ### the metric theorems on raw rows: the term the driver evaluates -/
+section raw
+variable {α : Type} [Field α] [LinearOrder α] [IsStrictOrderedRing α]
+
+theorem scriptSplit_good {P : Type} (script : Script) : SplitGood (scriptSplit (P := P) script) := by
+  intro pts a c b h
+  obtain ⟨_, hsub, ha, hb, hc⟩ := scriptSplit_shape script pts a b c h
+  exact ⟨hsub, ha, hb, hc⟩
+
+/-- `KNearest` only reads the reduced distances from the query to stored points -/
+theorem kNearest_congr {P : Type} {S : P → Prop} {m m' : Metric P α} (hA : Agree S m m') (q : P)
+    (hq : S q) (pts : List (Pt P)) (hp : ∀ x ∈ pts, S x.1) (out : List (Pt P)) (k : Nat)
+    (h : KNearest m' q pts out k) : KNearest m q pts out k := by
+  obtain ⟨rest, hperm, hl, ha, hm⟩ := h
+  have hin : ∀ x ∈ out ++ rest, S x.1 := fun x hx => hp x (hperm.subset hx)
+  refine ⟨rest, hperm, hl, ?_, ?_⟩
+  · refine List.Pairwise.imp_of_mem ?_ ha
+    intro a b ha' hb' hab
+    rw [hA.rdist _ _ hq (hin a (List.mem_append_left _ ha')),
+      hA.rdist _ _ hq (hin b (List.mem_append_left _ hb'))]
+    exact hab
+  · intro y hy x hx
+    rw [hA.rdist _ _ hq (hin y (List.mem_append_left _ hy)),
+      hA.rdist _ _ hq (hin x (List.mem_append_right _ hx))]
+    exact hm y hy x hx
+
+/-- **the statement's clauses for the function the driver runs, on raw rows**: `m` any metric on
+coordinate lists that is `Lawful` on the points of dimension `d` (proved for `mL1`, `mLinf`, `mL2`,
+`mLp p` with `p ≥ 1`), the driver's `vecMean` and `scriptSplit script` (any script), every kind and
+build form, leaf size ≥ 1, `d ≥ 1`, every batch of `d`-dimensional rows and `d`-dimensional query:
+`knnRequest m vecMean (scriptSplit script) …` — literally the term `Drv/C07.run` evaluates — returns
+`KNearest`, and `rangeRequest …` the stored points strictly inside the radius.  `ncols` and the query
+dimension are the lengths of the rows and of `q`. -/
+theorem raw_request_correct (m : Metric (List α) α) (d : Nat) (hL : Lawful (onDim d m))
+    (script : Script) (kind : Kind) (form : Form) (hl : 0 < form.leafSize) (hd : 0 < d)
+    (rows : List (List α)) (hrows : ∀ x ∈ rows, x.length = d) (q : List α) (hq : q.length = d)
+    (k : Nat) (r : α) :
+    (∃ out, knnRequest m vecMean (scriptSplit script) kind form d rows q.length q k = .ok out ∧
+      KNearest m q (enumerate rows) out k) ∧
+    (∃ out, rangeRequest m vecMean (scriptSplit script) kind form d rows q.length q r = .ok out ∧
+      out.Perm (linearRange m q r (enumerate rows)) ∧
+      (0 ≤ r → ∀ p, p ∈ out ↔ p ∈ enumerate rows ∧ m.dist q p.1 < r)) := by
+  have hA := agree_fitM d m
+  have hen : ∀ x ∈ enumerate rows, x.1.length = d := by
+    intro x hx
+    unfold enumerate at hx
+    obtain ⟨p, i⟩ := x
+    exact hrows p (List.mem_of_getElem? (List.mem_zipIdx_iff_getElem?.mp hx))
+  obtain ⟨e1, e2⟩ := request_congr hA vecMean (fun ps hne hp => vecMean_length ps d hne hp)
+    (scriptSplit script) (scriptSplit_good script) kind form d rows hrows q.length q hq k r
+  obtain ⟨⟨o1, ho1, hk1⟩, ⟨o2, ho2, hp2, hi2⟩⟩ :=
+    driver_request_correct (fitM_lawful hL) vecMean script kind form d hl hd rows q k r
+  rw [hq]
+  rw [hq] at e1 e2
+  refine ⟨⟨o1, e1.trans ho1, kNearest_congr hA q hq _ hen o1 k hk1⟩, ⟨o2, e2.trans ho2, ?_, ?_⟩⟩
+  · rw [linearRange_congr hA q hq r (enumerate rows) hen]
+    exact hp2
+  · intro hr p
+    rw [hi2 hr p]
+    constructor
+    · rintro ⟨hm, hlt⟩
+      exact ⟨hm, by rw [hA.dist _ _ hq (hen p hm)]; exact hlt⟩
+    · rintro ⟨hm, hlt⟩
+      exact ⟨hm, by rw [← hA.dist _ _ hq (hen p hm)]; exact hlt⟩
+
+/-- `L1Dist` and `LInfDist` on raw rows, any ordered field -/
+theorem raw_l1_linf_correct (d : Nat) (script : Script) (kind : Kind) (form : Form)
+    (hl : 0 < form.leafSize) (hd : 0 < d) (rows : List (List α)) (hrows : ∀ x ∈ rows, x.length = d)
+    (q : List α) (hq : q.length = d) (k : Nat) :
+    (∃ out, knnRequest mL1 vecMean (scriptSplit script) kind form d rows q.length q k = .ok out ∧
+      KNearest mL1 q (enumerate rows) out k) ∧
+    (∃ out, knnRequest mLinf vecMean (scriptSplit script) kind form d rows q.length q k = .ok out ∧
+      KNearest mLinf q (enumerate rows) out k) :=
+  ⟨(raw_request_correct mL1 d (mL1_lawful d) script kind form hl hd rows hrows q hq k 0).1,
+    (raw_request_correct mLinf d (mLinf_lawful d) script kind form hl hd rows hrows q hq k 0).1⟩
+
+end raw
+
+section rawreal
+noncomputable local instance : Transc ℝ := ⟨Real.sqrt, Real.exp, Real.log⟩
+
+/-- `L2Dist` and `LpDist(p)`, `p ≥ 1`, on raw rows over ℝ: k nearest and range (strictly inside) -/
+theorem raw_l2_lp_correct {p : ℝ} (hp : 1 ≤ p) (d : Nat) (script : Script) (kind : Kind) (form : Form)
+    (hl : 0 < form.leafSize) (hd : 0 < d) (rows : List (List ℝ)) (hrows : ∀ x ∈ rows, x.length = d)
+    (q : List ℝ) (hq : q.length = d) (k : Nat) (r : ℝ) (hr : 0 ≤ r) :
+    (∃ out, knnRequest mL2 vecMean (scriptSplit script) kind form d rows q.length q k = .ok out ∧
+      KNearest mL2 q (enumerate rows) out k) ∧
+    (∃ out, rangeRequest mL2 vecMean (scriptSplit script) kind form d rows q.length q r = .ok out ∧
+      ∀ x, x ∈ out ↔ x ∈ enumerate rows ∧ Real.sqrt (sqL2 q x.1) < r) ∧
+    (∃ out, knnRequest (mLp p) vecMean (scriptSplit script) kind form d rows q.length q k = .ok out ∧
+      KNearest (mLp p) q (enumerate rows) out k) ∧
+    (∃ out, rangeRequest (mLp p) vecMean (scriptSplit script) kind form d rows q.length q r = .ok out ∧
+      ∀ x, x ∈ out ↔ x ∈ enumerate rows ∧ lp p q x.1 < r) := by
+  obtain ⟨h1, o2, ho2, _, hi2⟩ :=
+    raw_request_correct mL2 d (mL2_lawful d) script kind form hl hd rows hrows q hq k r
+  obtain ⟨h3, o4, ho4, _, hi4⟩ :=
+    raw_request_correct (mLp p) d (mLp_lawful hp d) script kind form hl hd rows hrows q hq k r
+  exact ⟨h1, ⟨o2, ho2, hi2 hr⟩, h3, ⟨o4, ho4, hi4 hr⟩⟩
+
+-- non-vacuity: the 3-4-5 batch as raw rows, script with one split, L2 radius 5 (the point (3,4) on it)
+example : ∃ out, rangeRequest mL2 vecMean (scriptSplit [(1, [0], [1, 2])]) .ball (.leaf 1) 2
+      [[3, 4], [1, 1], [6, 8]] ([0, 0] : List ℝ).length [0, 0] 5 = .ok out ∧
+    ∀ x, x ∈ out ↔ x ∈ enumerate [[3, 4], [1, 1], [6, 8]] ∧ Real.sqrt (sqL2 [0, 0] x.1) < 5 :=
+  (raw_l2_lp_correct (p := 1) le_rfl 2 [(1, [0], [1, 2])] .ball (.leaf 1) (by decide) (by decide)
+    [[3, 4], [1, 1], [6, 8]] (by simp) [0, 0] rfl 2 5 (by norm_num)).2.1
+example : ∃ out, knnRequest mL1 vecMean (scriptSplit []) .kd .default 2
+      ([[3, 4], [1, 1], [6, 8]] : List (List ℚ)) ([0, 0] : List ℚ).length [0, 0] 2 = .ok out ∧
+    KNearest mL1 ([0, 0] : List ℚ) (enumerate [[3, 4], [1, 1], [6, 8]]) out 2 :=
+  (raw_l1_linf_correct (α := ℚ) 2 [] .kd .default (by decide) (by decide)
+    [[3, 4], [1, 1], [6, 8]] (by simp) [0, 0] rfl 2).1
+
+end rawreal
 
 end LinfaSpec.Props.C07
